@@ -1,6 +1,7 @@
 package main
 
 import (
+	"fmt"
 	"bytes"
 	"encoding/json"
 	"io"
@@ -117,6 +118,9 @@ func c09RoundRobin(c *Ctx, frozen bool, r *rand.Rand, rep int) {
 			if sticky {
 				opts = append(opts, roundrobin.EnableStickySession(roundrobin.NewStickySession("aff")))
 			}
+			if rep%2 == 1 {
+				opts = append(opts, roundrobin.Logger(fmtLogger{}), roundrobin.Verbose(true))
+			}
 			rr, _ := roundrobin.New(http.HandlerFunc(func(w http.ResponseWriter, req *http.Request) { _ = req.URL.String() }), opts...)
 			urls := []*url.URL{mustURL("http://a.test/"), mustURL("http://b.test/"), mustURL("http://c.test/x"), mustURL("https://d.test/")}
 			_ = rr.UpsertServer(urls[0])
@@ -163,6 +167,9 @@ func c09Rebalancer(c *Ctx, frozen bool, r *rand.Rand, rep int) {
 				w.WriteHeader(200)
 			}))
 			ropts := []roundrobin.RebalancerOption{roundrobin.RebalancerBackoff(time.Millisecond), roundrobin.RebalancerStickySession(roundrobin.NewStickySession("aff"))}
+			if rep%2 == 1 {
+				ropts = append(ropts, roundrobin.RebalancerLogger(fmtLogger{}), roundrobin.RebalancerDebug(true))
+			}
 			var meters []*scriptedMeter
 			var mmu sync.Mutex
 			if scripted {
@@ -227,7 +234,7 @@ func c09Breaker(c *Ctx, frozen bool, r *rand.Rand, rep int) {
 			phase.Store(k)
 		}), "NetworkErrorRatio() > 0.5 || ResponseCodeRatio(500, 600, 0, 600) > 0.7 || LatencyAtQuantileMS(50.0) > 10000",
 			cbreaker.FallbackDuration(5*time.Millisecond), cbreaker.RecoveryDuration(5*time.Millisecond), cbreaker.CheckPeriod(time.Millisecond),
-			cbreaker.OnTripped(on), cbreaker.OnStandby(off))
+			cbreaker.OnTripped(on), cbreaker.OnStandby(off), cbreaker.Logger(fmtLogger{}), cbreaker.Verbose(rep%2 == 1))
 		if err != nil {
 			c.Violation("w3/constructor", err.Error(), nil)
 			return
@@ -328,7 +335,7 @@ func c09RateLimit(c *Ctx, frozen bool, r *rand.Rand, rep int) {
 		_ = rs.Add(time.Second, 5, 10)
 		_ = rs.Add(time.Minute, 100, 100)
 		var admitted atomic.Int64
-		tl, err := ratelimit.New(http.HandlerFunc(func(w http.ResponseWriter, req *http.Request) { admitted.Add(1) }), hdrExtractor, rs, ratelimit.Capacity(4),
+		tl, err := ratelimit.New(http.HandlerFunc(func(w http.ResponseWriter, req *http.Request) { admitted.Add(1) }), hdrExtractor, rs, ratelimit.Capacity(4), ratelimit.Logger(fmtLogger{}),
 			ratelimit.ExtractRates(ratelimit.RateExtractorFunc(func(req *http.Request) (*ratelimit.RateSet, error) {
 				if req.Header.Get("X-Src") == "s1" {
 					o := ratelimit.NewRateSet()
@@ -356,7 +363,7 @@ func c09ConnLimit(c *Ctx, frozen bool, r *rand.Rand, rep int) {
 		if req.Header.Get("X-Panic") != "" {
 			panic(http.ErrAbortHandler)
 		}
-	}), hdrExtractor, 3)
+	}), hdrExtractor, 3, connlimit.Logger(fmtLogger{}), connlimit.Verbose(rep%2 == 1))
 	per := c.N(500, 4000)
 	runN(16, per, func(g, k int) {
 		req := httptest.NewRequest("GET", "http://c.test/", nil)
@@ -414,10 +421,10 @@ func c09Tracer(c *Ctx, frozen bool, r *rand.Rand, rep int) {
 }
 
 func c09FullStack(c *Ctx, frozen bool, r *rand.Rand, rep int) {
-	back1 := httptest.NewServer(http.HandlerFunc(func(w http.ResponseWriter, req *http.Request) { _, _ = w.Write([]byte("b1")) }))
+	back1 := newTestServer(http.HandlerFunc(func(w http.ResponseWriter, req *http.Request) { _, _ = w.Write([]byte("b1")) }))
 	defer back1.Close()
 	var n2 atomic.Int64
-	back2 := httptest.NewServer(http.HandlerFunc(func(w http.ResponseWriter, req *http.Request) {
+	back2 := newTestServer(http.HandlerFunc(func(w http.ResponseWriter, req *http.Request) {
 		if n2.Add(1)%2 == 0 {
 			w.WriteHeader(502)
 			return
@@ -427,19 +434,19 @@ func c09FullStack(c *Ctx, frozen bool, r *rand.Rand, rep int) {
 	defer back2.Close()
 	withClock(frozen, 200*time.Millisecond, func() {
 		fwd := forward.New(false)
-		buf, _ := buffer.New(fwd, buffer.Retry(`IsNetworkError() && Attempts() <= 2`), buffer.MemResponseBodyBytes(1000))
+		buf, _ := buffer.New(fwd, buffer.Retry(`IsNetworkError() && Attempts() <= 2`), buffer.MemResponseBodyBytes(1000), buffer.Logger(fmtLogger{}), buffer.Verbose(rep%2 == 1))
 		rr, _ := roundrobin.New(buf)
-		rb, _ := roundrobin.NewRebalancer(rr, roundrobin.RebalancerBackoff(time.Millisecond))
+		rb, _ := roundrobin.NewRebalancer(rr, roundrobin.RebalancerBackoff(time.Millisecond), roundrobin.RebalancerLogger(fmtLogger{}), roundrobin.RebalancerDebug(rep%2 == 1))
 		_ = rb.UpsertServer(mustURL(back1.URL))
 		_ = rb.UpsertServer(mustURL(back2.URL))
-		cb, _ := cbreaker.New(rb, "NetworkErrorRatio() > 0.9", cbreaker.FallbackDuration(2*time.Millisecond), cbreaker.RecoveryDuration(2*time.Millisecond), cbreaker.CheckPeriod(time.Millisecond))
+		cb, _ := cbreaker.New(rb, "NetworkErrorRatio() > 0.9", cbreaker.FallbackDuration(2*time.Millisecond), cbreaker.RecoveryDuration(2*time.Millisecond), cbreaker.CheckPeriod(time.Millisecond), cbreaker.Logger(fmtLogger{}))
 		rs := ratelimit.NewRateSet()
 		_ = rs.Add(time.Second, 200, 400)
 		tl, _ := ratelimit.New(cb, hdrExtractor, rs)
 		cl, _ := connlimit.New(tl, hdrExtractor, 6)
 		out := &syncWriter{}
 		tr, _ := trace.New(cl, out)
-		front := httptest.NewServer(tr)
+		front := newTestServer(tr)
 		defer front.Close()
 		client := &http.Client{Transport: &http.Transport{MaxIdleConnsPerHost: 16}, Timeout: 60 * time.Second}
 		per := c.N(40, 250)
@@ -487,7 +494,7 @@ func c09BufferEtc(c *Ctx, frozen bool, r *rand.Rand, rep int) {
 	})
 	buf, _ := buffer.New(h, buffer.Retry(`ResponseCode() == 503 && Attempts() <= 3`), buffer.MemRequestBodyBytes(512), buffer.MemResponseBodyBytes(512), buffer.MaxResponseBodyBytes(100000))
 	st, _ := stream.New(h)
-	back := httptest.NewServer(h)
+	back := newTestServer(h)
 	defer back.Close()
 	fwd := forward.New(true)
 	sl := forward.NewStateListener(fwd, func(*url.URL, int) {})
@@ -508,3 +515,12 @@ func c09BufferEtc(c *Ctx, frozen bool, r *rand.Rand, rep int) {
 	})
 	c.Count("w9_ops", int64(12*per))
 }
+
+// fmtLogger is a user-supplied Logger that really formats its arguments (the default NoopLogger never does), so
+// every String() method reachable from a log call is exercised under the race detector.
+type fmtLogger struct{}
+
+func (fmtLogger) Debug(m string, a ...any) { fmt.Fprintf(io.Discard, m, a...) }
+func (fmtLogger) Info(m string, a ...any)  { fmt.Fprintf(io.Discard, m, a...) }
+func (fmtLogger) Warn(m string, a ...any)  { fmt.Fprintf(io.Discard, m, a...) }
+func (fmtLogger) Error(m string, a ...any) { fmt.Fprintf(io.Discard, m, a...) }
